@@ -22,6 +22,19 @@ from vlib.compare import close_text3
 SPEC = os.path.join(env.SPEC, "Atomize")
 SITE = "atomize_vcf"
 SHAPE_EXAMPLE = {}
+PENDING = []   # violations of the replay, emitted round-robin over their keys (only the first 25 are printed in full)
+
+
+def flush_pending(ck):
+    seen_n, order = {}, []
+    for i, (kind, detail, key) in enumerate(PENDING):
+        k = json.dumps(key, sort_keys=True)
+        seen_n[k] = seen_n.get(k, 0) + 1
+        order.append((seen_n[k], i))
+    for _, i in sorted(order):
+        kind, detail, key = PENDING[i]
+        ck.violation(kind, detail, key=key)
+    del PENDING[:]
 
 GOLDEN_SKIP = ("basis", "atomize")
 
@@ -307,18 +320,18 @@ def replay(ck, states, seen, wdir, shapes, crashes, info_counts, ok_for_multi):
             if "error" in o:
                 kk = (shp, o.get("etype"), o.get("where"))
                 crashes[kk] = crashes.get(kk, 0) + 1
-                ck.violation(
+                PENDING.append((
                     "shape-rejected",
                     {"record": rec, "vcf_line": render(rec, with_header=False).strip(), "error": o["error"], "in": o.get("where"),
                      "expected": "one line per polymorphic SNVPOS entry; monomorphic sites omitted or ALT '.'"},
-                    key={"site": SITE, "shape": shp, "error": o.get("etype")},
-                )
+                    {"site": SITE, "shape": shp, "error": o.get("etype")},
+                ))
                 continue
             bad, info = compare_record(ck, rec, ml, o["out"])
             for f, d in bad:
-                ck.violation("projection-mismatch", {"field": f, "detail": d, "record": rec,
-                                                     "vcf_line": render(rec, with_header=False).strip()},
-                             key={"site": SITE, "field": f, "shape": shp})
+                PENDING.append(("projection-mismatch", {"field": f, "detail": d, "record": rec,
+                                                        "vcf_line": render(rec, with_header=False).strip()},
+                                {"site": SITE, "field": f, "shape": shp}))
             for t in info:
                 info_counts[t[0]] = info_counts.get(t[0], 0) + 1
             if not bad and len(ok_for_multi) < 4000:
@@ -355,7 +368,7 @@ def main():
         "complete record is rendered to VCF, run through atomize_vcf and compared with the model lines. Non-trivial = record "
         "with >= 1 SNV site whose site numbering differs from the haplotype numbering, or with a monomorphic site, or a '.' allele."
     )
-    cfgs = ["MC_quick.cfg", "MC_ordered.cfg"] if tier == "quick" else ["MC_quick.cfg", "MC_ordered.cfg", "MC_thorough.cfg", "MC_tetra.cfg"]
+    cfgs = ["MC_quick.cfg", "MC_ordered.cfg"] if tier == "quick" else ["MC_full.cfg", "MC_ordered.cfg", "MC_thorough.cfg", "MC_tetra.cfg"]
     wdir = os.path.join(ck.wd, "tmp")
     os.makedirs(wdir, exist_ok=True)
     shapes, crashes, info_counts, ok_for_multi = {}, {}, {}, []
@@ -379,6 +392,7 @@ def main():
         ck.note("mutant_specs_killed", killed)
     except tlc.TLCError as e:
         ck.machinery_failure(str(e))
+    flush_pending(ck)
     ck.traces += n_records
     ck.note("model_records_replayed", n_records)
     ck.note("record_shapes", shapes)
